@@ -8,7 +8,7 @@
 set -u
 lab="/tmp/mutlab/$1"; k="$2"; id="$3"; mode="$4"; pkg="$5"; re="$6"; caught="$7"; note="${8:-}"
 export GOFLAGS=-mod=mod GOPROXY=off GOSUMDB=off GOTOOLCHAIN=local
-wt="$lab/wt"; out="$lab/out/$k"; dst="/verif/seeded/$id-$k"
+wt="$lab/wt"; out="$lab/out/$k"; dst="/verif/seeded/$id-${SEEDK:-$k}"
 git -C "$wt" checkout -q -- . ; git -C "$wt" clean -fdq; git -C "$wt" checkout -q --detach "$(git -C /repo rev-parse HEAD)"
 files=""
 if [ -d "$out/demo" ]; then files=$(ls "$out"/demo/*.go); else files=$(ls "$out"/*_test.go 2>/dev/null); fi
@@ -29,7 +29,7 @@ verdict="CONFIRMED"
 [ $rc_clean -eq 0 ] || verdict="REJECTED(demo fails on clean tree)"
 [ $rc_patch -ne 0 ] || verdict="REJECTED(demo passes with patch)"
 [ $rc_build -eq 0 ] || verdict="REJECTED(does not compile)"
-echo "KEEP $id-$k: $verdict clean_rc=$rc_clean patch_rc=$rc_patch build_rc=$rc_build caught=$caught"
+echo "KEEP $id-${SEEDK:-$k}: $verdict clean_rc=$rc_clean patch_rc=$rc_patch build_rc=$rc_build caught=$caught"
 [ "$verdict" = CONFIRMED ] || { tail -5 /tmp/seed_clean.txt; tail -5 /tmp/seed_patch.txt; tail -3 /tmp/seed_build.txt; exit 4; }
 mkdir -p "$dst/demo"; cp "$out/patch.diff" "$dst/patch.diff"; for f in $files; do cp "$f" "$dst/demo/"; done
 tail -25 /tmp/seed_clean.txt > "$dst/demo_output_clean.txt"; tail -40 /tmp/seed_patch.txt > "$dst/demo_output_with_patch.txt"
